@@ -68,6 +68,8 @@ pub enum ModelEvaluatorError {
   InvalidNumberOfRuleEntries(usize, usize, usize),
   #[error("requirements of the element with identifier `{0}` form a cycle")]
   CyclicRequirements(String),
+  #[error("type references of the item definition `{0}` form a cycle")]
+  CyclicItemDefinitions(String),
   #[error("read lock failed with reason '{0}'")]
   ReadLockFailed(String),
   #[error("write lock failed with reason '{0}'")]
@@ -142,6 +144,10 @@ pub fn err_invalid_number_of_rule_entries(rule: usize, inputs: usize, outputs: u
 
 pub fn err_cyclic_requirements(id: &str) -> DmntkError {
   ModelEvaluatorError::CyclicRequirements(id.to_string()).into()
+}
+
+pub fn err_cyclic_item_definitions(name: &str) -> DmntkError {
+  ModelEvaluatorError::CyclicItemDefinitions(name.to_string()).into()
 }
 
 pub fn err_read_lock_failed(reason: impl ToString) -> DmntkError {
